@@ -40,6 +40,10 @@ CLAIMED = {
    text="Exponent-level model (G1 elements as discrete logs w.r.t. the SRS generator, secret x known): theorems for the SRS powers, commit = linear image (additive, zero -> identity, trimming irrelevant), completeness of a Ruffini opening, exactness under the polynomial-identity (AGM) reading [partial: computational binding is assumed], aggregate-witness formula, and the batch check: passes for every challenge if all openings are true, and if it passes for as many distinct challenges as there are openings then every opening is true (root bound). On every run a scripted-RNG SRS is generated by the real code, every G1 power and the G2 element are checked against x, and commits / trims / single, aggregated and batched checks (one wrong value or witness at every position, swapped, cancelling, identity-witness, empty, mismatched) are compared with the model's verdict via the real pairing.",
    technique="Coq proof over an exponent-level KZG model + differential correspondence through cfg-guarded wrappers with a known SRS secret",
    design="5/C20"),
+ "C18": dict(
+   text="Partial by nature (runtime). Theorems for the logic part: the copy permutation is independent of the iteration order of the hash map of witness classes (C18_sigma_order_independent), field sums are order-independent (C18_field_sum_reassoc), and for EVERY worker-thread count the range-split butterfly of the final FFT stages equals the serial one (C18_fft_threads_independent); rayon combinators are assumed to have their sequential meaning. What no model can exhibit - real interleavings, per-process hash seeds, separate compilation - is checked impl-vs-impl on every run: key digests and proof bytes under pools {1,2,3,4,5,8,16,17} at a 2^12 domain with the same scripted RNG, in two processes and in an alloc-only (no std, serial paths) build, and 8 threads proving/verifying concurrently on shared keys vs sequentially.",
+   technique="Coq proof (order/thread independence lemmas) + impl-vs-impl byte comparison across pools, processes, builds and concurrent callers",
+   design="5/C18"),
  "C08": dict(
    text="Machine-checked theorems (Props/C08.v) state, for every selector tuple, wiring and assignment, the exact relation each arithmetic/equality/boolean/selection component enforces, uniqueness of returned witnesses, completeness of honest values and locality of arithmetic blocks inside any satisfied system; the Gallina composer model they are about is compared on every run with the real Composer (gates, public-input rows, witness values) on generated programs, and the real snapshots are probed with perturbed assignments evaluated by the proved-sound row evaluator.",
    technique="Coq proof over a Gallina model of the composer + differential correspondence (L3 snapshot tie) + exactness probe on real layouts",
